@@ -114,7 +114,11 @@ impl<'tree, D: Doc> MetaVarEnv<'tree, D> {
     var_matchers: &HashMap<MetaVariableID, M>,
   ) -> bool {
     let mut env = Cow::Borrowed(self);
-    for (var_id, candidate) in &self.single_matched {
+    // constraints can bind variables themselves: check them in a fixed order
+    // so that the result does not depend on the hash map's iteration order
+    let mut vars: Vec<_> = self.single_matched.iter().collect();
+    vars.sort_unstable_by_key(|(var_id, _)| *var_id);
+    for (var_id, candidate) in vars {
       if let Some(m) = var_matchers.get(var_id) {
         if m.match_node_with_env(candidate.clone(), &mut env).is_none() {
           return false;
